@@ -76,6 +76,25 @@ NM_KEY = ("        if deep_immutable:\n            memokey = b\"I\" + bigcap\n"
 UN_BOTH_IMM = ("            elif given_ro_uri.startswith(ALLEGED_IMMUTABLE_PREFIX):\n"
                "                # Strange corner case")
 
+FLAGS_INIT = "can_be_mutable = can_be_writeable = not deep_immutable"
+FLAGS_IMM_CLEAR = "can_be_mutable = can_be_writeable = False"
+CBW_RO_CLEAR = "        can_be_writeable = False\n        s = s[len(ALLEGED_READONLY_PREFIX):]"
+CBM_SITES = [FLAGS_INIT, FLAGS_IMM_CLEAR] + [
+    "if can_be_mutable:\n                return %s.init_from_string" % k
+    for k in ("ReadonlySSKFileURI", "ReadonlyMDMFFileURI", "ReadonlyDirectoryURI", "ReadonlyMDMFDirectoryURI")] + [
+    "and not can_be_mutable:", "        if not can_be_mutable:\n            error"]
+CBW_SITES = [FLAGS_INIT, FLAGS_IMM_CLEAR, CBW_RO_CLEAR] + [
+    "if can_be_writeable:\n                return %s.init_from_string" % k
+    for k in ("WriteableSSKFileURI", "WriteableMDMFFileURI", "DirectoryURI", "MDMFDirectoryURI")] + [
+    "and not can_be_writeable:"]
+
+
+def _rename(mid, name, new, contexts, expect, extra=()):
+    """Consistent rename of a local of uri.from_string: one edit per occurrence (each context is unique in the file)."""
+    eds = [(U, c, c.replace(name, new)) for c in contexts]
+    return M(mid, U, eds[0][1], eds[0][2], expect, edits=eds[1:] + list(extra))
+
+
 MUTANTS = [
     # ---- C16.1 diminishing constructors
     M("ssk-readonly-gets-writekey", U, "return ReadonlySSKFileURI(self.readkey, self.fingerprint)",
@@ -141,6 +160,17 @@ MUTANTS = [
       "            if not can_be_writeable:\n                kind = \"URI:DIR2 directory writecap\"\n            else:\n                return DirectoryURI.init_from_string(s)\n", None),
     M("benign-flags-split", U, "    can_be_mutable = can_be_writeable = not deep_immutable\n",
       "    can_be_mutable = not deep_immutable\n    can_be_writeable = not deep_immutable\n", None),
+    # the flags are found by what they hold, not by what they are called
+    _rename("benign-flag-mutable-renamed", "can_be_mutable", "can_be_mutable_sa", CBM_SITES, None),
+    _rename("benign-flag-writeable-renamed", "can_be_writeable", "may_write", CBW_SITES, None),
+    _rename("renamed-flag-ro-prefix-does-not-clear", "can_be_writeable", "may_write",
+            [c for c in CBW_SITES if c != CBW_RO_CLEAR], "C16.5",
+            extra=[(U, CBW_RO_CLEAR, "        s = s[len(ALLEGED_READONLY_PREFIX):]")]),
+    _rename("renamed-flag-imm-prefix-keeps-mutable", "can_be_mutable", "flag_m",
+            [c for c in CBM_SITES if c != FLAGS_IMM_CLEAR], "C16.5",
+            extra=[(U, FLAGS_IMM_CLEAR, "can_be_writeable = False")]),
+    _rename("renamed-flag-refusal-error-dropped", "can_be_mutable", "flag_m", CBM_SITES, "C16.10", extra=[(U,
+      "        else:\n            error = MustBeReadonlyError(kind + \" used in a read-only context\", name)\n", "")]),
     # ---- C16.6 UnknownNode
     M("unknown-rw-stored-early", K, "        if deep_immutable:\n            assert self.rw_uri is None\n",
       "        self.rw_uri = given_rw_uri\n        if deep_immutable:\n", "C16.6"),
